@@ -279,7 +279,19 @@ func checkC09(c *Ctx) {
 							}
 						}
 						if f != specName+".GetName()" {
-							fieldsOK = false
+							// a local of the loop that holds the header's name (name := headerSpec.GetName())
+							okAlias := false
+							ast.Inspect(vloop.Body, func(m ast.Node) bool {
+								if as, ok := m.(*ast.AssignStmt); ok && len(as.Lhs) == 1 && len(as.Rhs) == 1 {
+									if types.ExprString(as.Lhs[0]) == f && types.ExprString(as.Rhs[0]) == specName+".GetName()" {
+										okAlias = true
+									}
+								}
+								return true
+							})
+							if !okAlias {
+								fieldsOK = false
+							}
 						}
 					}
 				}
@@ -586,6 +598,29 @@ func formatPublished(c *Ctx, conv *types.Func, t, f string) bool {
 			}
 		}
 		return 0, false
+	}
+	// the format given in the schema literal itself (Format: header.GetFormat()) is published on every path
+	if decl := c.P.Decls[conv]; decl != nil && decl.Body != nil {
+		info := c.P.DeclPkg[conv].TypesInfo
+		inLiteral := false
+		ast.Inspect(decl.Body, func(n ast.Node) bool {
+			lit, ok := n.(*ast.CompositeLit)
+			if !ok {
+				return true
+			}
+			if tv, ok := info.Types[lit]; !ok || !typeIsNamed(tv.Type, "datamodel/high/base", "Schema") {
+				return true
+			}
+			for _, el := range lit.Elts {
+				if kv, ok := el.(*ast.KeyValueExpr); ok && types.ExprString(kv.Key) == "Format" && strings.HasSuffix(types.ExprString(kv.Value), ".GetFormat()") {
+					inLiteral = true
+				}
+			}
+			return true
+		})
+		if inLiteral {
+			return true
+		}
 	}
 	outs, _, _ := c.W.EvalAll(conv, fix, true, 64)
 	if len(outs) == 0 {
